@@ -121,6 +121,12 @@ CLAIMED.update({
          LEDGER_NOTE + " Latest account logic only (an unlisted named badge means refund / abort).", "5 C39"),
 })
 
+CLAIMED.update({
+ "C40": ("exploration", "deterministic simulation with clock faults and fault injection: primary / recovery / confirmation holders and an outsider issue all access-controller methods in seeded order with seeded proposals and current or stale badges, while the simulated consensus driver moves the proposer clock around recovery deadlines; a history model built from the successful calls justifies every change of the role rules and every loss of the controlled asset (safety monitor after every transaction)",
+         "Role rules change only in a quick-confirm by a role other than the proposer passing exactly the recorded proposal, or in a timed confirmation of the recovery role's recorded timed proposal at or after its deadline minute, and then to exactly the proposed rules; the asset leaves only through a quick-confirmed badge withdraw attempt of the other side; create_proof never succeeds while the primary role is locked; no call succeeds with a badge that satisfies none of the method's roles; failed calls change nothing; the stored state tuple equals the history model after every success. One recorded known finding (timed_confirm_recovery is callable by anyone) is stepped over and reported as KNOWN-FINDING.",
+         LEDGER_NOTE + " Latest access controller only; recovery-fee vault methods are not exercised.", "5 C40"),
+})
+
 PURE = "pure function of one input value: no schedule, clock, I/O, fault or history for a simulator to own (DESIGN section 6)"
 NOT_APPLICABLE = {
  "C16": "key mapping is a pure bijection on keys; " + PURE,
